@@ -1064,14 +1064,16 @@ func (j *lexJVal) serialize(b *bytes.Buffer) {
 
 // ---- the RFC 3339 side tables (trusted standard-library parameter of the model) ---------------------------
 
-// lexFmtTable: for every date node, what time.Unix(secs,0).Format(time.RFC3339) gives.
+// lexFmtTable: for every date node, what time.Unix(secs,0).UTC().Format(time.RFC3339) gives (the model's writer
+// formats in UTC; the engine pins time.Local = UTC for the correspondence lines, the zone oracle below runs the
+// real code under other zones).
 func lexFmtTable(x *lexItem) string {
 	var parts []string
 	seen := map[int64]bool{}
 	x.walk(func(n *lexItem) {
 		if n.kind == tree.KDate && !seen[n.i] {
 			seen[n.i] = true
-			parts = append(parts, fmt.Sprintf("%d=%s", n.i, hexUp([]byte(time.Unix(n.i, 0).Format(time.RFC3339)))))
+			parts = append(parts, fmt.Sprintf("%d=%s", n.i, hexUp([]byte(time.Unix(n.i, 0).UTC().Format(time.RFC3339)))))
 		}
 	})
 	if len(parts) == 0 {
@@ -1932,6 +1934,161 @@ func (e *lexEnv) handDocs() []lexDoc {
 	return docs
 }
 
+// ---- time zones: the property quantifies over messages, not over machines whose zone is UTC ---------------------
+
+type lexZone struct {
+	tok string // replayable: fixed:<offset seconds> | name:<IANA name>
+	loc *time.Location
+}
+
+func lexZoneOf(tok string) *time.Location {
+	kind, arg, _ := strings.Cut(tok, ":")
+	switch kind {
+	case "fixed":
+		if off, err := strconv.Atoi(arg); err == nil {
+			return time.FixedZone(arg, off)
+		}
+	case "name":
+		if loc, err := time.LoadLocation(arg); err == nil {
+			return loc
+		}
+	}
+	return nil
+}
+
+// lexZones: UTC, the extreme offsets, half-hour offsets, offsets with seconds (local mean time: what every IANA zone
+// has before its standard time), and real zones when the machine has a zone database.
+func lexZones(ctx *Ctx) []lexZone {
+	var zs []lexZone
+	for _, off := range []int{0, 3600, -3600, 14 * 3600, -12 * 3600, 5*3600 + 1800, 9 * 3600, -8 * 3600, 9*3600 + 18*60 + 59, -(7*3600 + 52*60 + 58), 9*60 + 21} {
+		tok := "fixed:" + strconv.Itoa(off)
+		zs = append(zs, lexZone{tok, lexZoneOf(tok)})
+	}
+	for _, n := range []string{"Asia/Tokyo", "America/Los_Angeles", "Europe/Paris", "Pacific/Kiritimati", "Asia/Kolkata"} {
+		tok := "name:" + n
+		if loc := lexZoneOf(tok); loc != nil {
+			zs = append(zs, lexZone{tok, loc})
+			ctx.Res.Count("zone.named")
+		} else {
+			ctx.Res.Count("zone.named-unavailable")
+		}
+	}
+	return zs
+}
+
+// zoneCase: C04 on a tree with dates, for a machine whose zone is z (local = true: time.Local is z while the real code
+// runs, as for a value that arrives in binary TTLV, which the binary reader returns in time.Local; local = false: the
+// caller hands the encoder time.Time values located in z, time.Local stays UTC). Impl-only line, replayable.
+func (e *lexEnv) zoneCase(ctx *Ctx, c *lexCodec, z lexZone, local bool, x *lexItem) {
+	mode := "local"
+	if !local {
+		mode = "in"
+	}
+	line := "#lex.zone " + c.name + " " + mode + " " + z.tok + " " + x.render()
+	if e.seen[line] {
+		return
+	}
+	e.seen[line] = true
+	ctx.current = line
+	saved := time.Local
+	defer func() { time.Local = saved }()
+	if local {
+		time.Local = z.loc
+	}
+	want := x.erase().Encode()
+	key := c.name + ":zone:"
+	var val any
+	if local {
+		// through the library's binary reader
+		v, p := guard("UnmarshalTTLV", func() *ttlv.Value {
+			var v ttlv.Value
+			if err := ttlv.UnmarshalTTLV(append([]byte{}, want...), &v); err != nil {
+				return nil
+			}
+			return &v
+		})
+		if p != "" || v == nil {
+			lexFail(ctx, "zone: the binary reader rejects the harness encoding at "+line)
+			return
+		}
+		val = *v
+	} else {
+		y := lexItemOf(x.erase())
+		y.walk(func(n *lexItem) {
+			if n.kind == tree.KDate {
+				t := time.Unix(n.i, 0).In(z.loc)
+				n.tm = &t
+			}
+		})
+		val = lexEnc{y}
+	}
+	outcome := "ok"
+	doc, p := guard("Marshal", func() []byte { return append([]byte{}, c.marshal(val)...) })
+	switch {
+	case p != "":
+		outcome = "panic"
+		e.violate(ctx, "C04", "zone", key+"encoder-panic", "encoder panicked under zone "+z.tok+": "+p, line)
+	case !c.wellFormed(doc):
+		outcome = "not-well-formed"
+		e.violate(ctx, "C04", "zone", key+"not-well-formed", "independent parser rejects the document written under zone "+z.tok+": "+shortKey(doc), line)
+	default:
+		type out struct {
+			b   []byte
+			err error
+		}
+		r, p := guard("Unmarshal", func() out {
+			var back ttlv.Value
+			if err := c.unmarshal(append([]byte{}, doc...), &back); err != nil {
+				return out{nil, err}
+			}
+			return out{ttlv.MarshalTTLV(back), nil}
+		})
+		switch {
+		case p != "":
+			outcome = "panic"
+			e.violate(ctx, "C04", "zone", key+"decode-panic", "decoding the library's own document panicked under zone "+z.tok+": "+p, line)
+		case r.err != nil:
+			outcome = "err"
+			e.violate(ctx, "C04", "zone", key+"decode-error", "with the time zone "+z.tok+" the library cannot decode its own document "+shortKey(doc)+": "+r.err.Error(), line)
+		case !bytes.Equal(r.b, want):
+			outcome = "differs"
+			got := "?"
+			if it, err := tree.Decode(r.b); err == nil {
+				got = it.Render()
+			}
+			e.violate(ctx, "C04", "zone", key+"binary-differs", "with the time zone "+z.tok+" the document "+shortKey(doc)+" decodes to another message: "+firstDiff(x.erase().Render(), got), line)
+		}
+	}
+	ctx.Add(line, outcome, true, "")
+	ctx.Res.Count("zone." + c.name + "." + mode + "." + outcome)
+}
+
+var lexZoneSecs = []int64{-62135596800, -62135596799, -62135596800 + 43200, -62135596800 + 50400, -62135596800 + 86399, -5364662400, -3000000000, -2208988800, -2000000000,
+	-1, 0, 1, 951782400, 1700000000, 4102444800, 253402300799 - 366*86400, 253402300799 - 86400, 253402300799 - 50400, 253402300799 - 43200 - 1, 253402300799 - 43200, 253402300799 - 3600, 253402300799 - 3599, 253402300799 - 1, 253402300799}
+
+func (e *lexEnv) zoneRun(ctx *Ctx) {
+	r := ctx.R
+	secs := append([]int64{}, lexZoneSecs...)
+	for k := ctx.N(16, 400); k > 0; k-- {
+		secs = append(secs, -62135596800+int64(r.U64()%315537897600))
+	}
+	zs := lexZones(ctx)
+	for i, s := range secs {
+		var x *lexItem
+		if i%2 == 0 {
+			x = &lexItem{kind: tree.KDate, tag: 0x420008 + i%3*0x120000, i: s}
+		} else {
+			x = &lexItem{kind: tree.KStruct, tag: 0x420078, children: []*lexItem{{kind: tree.KText, tag: 0x420094, data: []byte("t")}, {kind: tree.KDate, tag: 0x420092, i: s}, {kind: tree.KLong, tag: 0x540002, i: s}}}
+		}
+		for _, z := range zs {
+			for _, c := range []*lexCodec{lexXML, lexJSON} {
+				e.zoneCase(ctx, c, z, true, x)
+				e.zoneCase(ctx, c, z, false, x)
+			}
+		}
+	}
+}
+
 // ---- engine -------------------------------------------------------------------------------------------------
 
 func (e *lexEnv) replay(ctx *Ctx) {
@@ -1991,6 +2148,22 @@ func (e *lexEnv) replay(ctx *Ctx) {
 				jv.serialize(&buf)
 				e.readerCase(ctx, lexJSON, buf.Bytes(), h, "replay")
 			}
+		case "#lex.zone":
+			g := strings.SplitN(l, " ", 5)
+			if len(g) != 5 {
+				continue
+			}
+			x, err := lexParseItem(g[4])
+			loc := lexZoneOf(g[3])
+			if err != nil || loc == nil {
+				lexFail(ctx, "replay: bad zone line (or zone database unavailable) "+l)
+				continue
+			}
+			c := lexXML
+			if g[1] == "json" {
+				c = lexJSON
+			}
+			e.zoneCase(ctx, c, lexZone{g[3], loc}, g[2] == "local", x)
 		case "#lex.xmlr-raw", "#lex.jsonr-raw", "#lex.xmlr-nonascii-space", "#lex.jsonr-nonascii-space":
 			if len(f) < 3 {
 				continue
@@ -2055,6 +2228,11 @@ func (e *lexEnv) oneTree(ctx *Ctx, t lexTree, origin string, mutate bool) {
 }
 
 func lexRun(ctx *Ctx) {
+	// the correspondence lines assume what the model assumes: dates are formatted in UTC. Pinned here, not inherited
+	// from the machine; zoneRun exercises the real code under other zones.
+	savedLocal := time.Local
+	time.Local = time.UTC
+	defer func() { time.Local = savedLocal }()
 	e := lexNewEnv()
 	if len(e.enumNames[lexTagCryptoAlg]) < 2 || len(e.maskNames[lexTagUsageMask]) == 0 {
 		ctx.Res.Fail("lex: the registry lacks CryptographicAlgorithm / CryptographicUsageMask")
@@ -2070,6 +2248,8 @@ func lexRun(ctx *Ctx) {
 		return
 	}
 	r := ctx.R
+	// (0) dates under the time zones a machine may have
+	e.zoneRun(ctx)
 	// (1) boundary values of every scalar kind
 	for _, t := range e.boundaryTrees() {
 		e.oneTree(ctx, t, "boundary", false)
